@@ -83,6 +83,28 @@ NOTES = {
              'framing',
     'c20_5': '**missed at first**: getbalance was only asked for one address; C20 got address lists cut into several requests with the '
              'per-address cache records',
+    'c03_6': '**missed at first**: the documented network argument of child_public / child_private / subkey_for_path was never '
+             'spelled out; C03 now derives with it as well',
+    'c04_6': '**missed at first**: address_obj was only read after address(); C04 reads it first on fresh HD keys and on public(), '
+             'and both in both orders on one object',
+    'c07_6': '**missed by C07**, reported by C08 (history [send_ext, delete_funding, utxo_add_spent]): the change is in utxos_update, '
+             'the ledger side of the same clause; both checks are run for it',
+    'c08_6': '**missed at first**: utxos_update was only called for the whole wallet; C08 got the single-key update as an event',
+    'c09_6': '**missed at first**: only the BIP44/49/84/48 key structures; C09 got a wallet with the bundled all-hardened key path '
+             '(and now reports index fields outside [0, 2^31) instead of failing on them)',
+    'c10_6': '**missed at first** (reported by the thorough tier after the change): needs m+2 distinct signers; 2-of-5 ceremonies of '
+             'length 4 were added to the thorough menu',
+    'c12_6': '**missed at first**: hints were given none / network / all three; C12 now imports with every partial combination of hints',
+    'c13_6': '**missed at first**: no digest whose 32 bytes read as text; C13 got hex-digit, decimal, blank-padded and base58-looking '
+             'digests',
+    'c17_6': '**missed at first**: fees derived by the Transaction constructor were not observed; C17 got the sub-space txfee '
+             '(inputs vs outputs x coinbase x given/derived fee)',
+    'c18_6': '**missed at first**: the generic Script.parse() was only given bytes and streams; it is now also given hexadecimal text, '
+             'and raw scripts of twice/half the heuristic lengths were added',
+    'c19_6': '**missed at first**: every branch of a conditional had its own marker; C19 got the sub-space condbody (every assignment '
+             'of empty / equal bodies to the branches)',
+    'c20_6': '**missed at first**: every provider answer was a complete transaction; C20 got the sub-space incomplete (copies without '
+             'input values / block time / block height that the cache refuses) - exposed two genuine defects, repaired',
     'c13': '**missed at first**: C13 verified every triple on a fresh object; it now explores verify-call histories on '
            'one Signature object (sub-space reuse)',
 }
